@@ -5,15 +5,19 @@ EXTENDS StreamFraming
 Bad(wf) == [GoodReply EXCEPT !.wf = wf]
 MCMsgs == {GoodReply, [GoodReply EXCEPT !.idm = FALSE], Bad("badRdata"), Bad("trailing")}
 MCCases(lens, qlens, deadlines) ==
-    {[api |-> a, qlen |-> q, msg |-> m, L |-> L, pad |-> 0, v |-> 0, extra |-> x, it |-> it, deadline |-> d, tz |-> "-"] :
+    {[api |-> a, qlen |-> q, msg |-> m, L |-> L, pad |-> 0, v |-> 0, extra |-> x, it |-> it, deadline |-> d, tz |-> "-", qop |-> "QUERY", conn |-> "given"] :
        a \in {"send", "recv", "tcp"}, q \in qlens, m \in MCMsgs, L \in lens, x \in {0, 2}, it \in BOOLEAN,
        d \in deadlines}
 MCQuick0 == MCCases({0, 1, 4}, {1}, {0, 5})
-MCQuick == MCQuick0 \cup ZeroTimeouts(MCQuick0)
+OwnConn(S) == {[c EXCEPT !.conn = "own", !.api = a] : c \in {x \in S : x.api = "tcp"}, a \in {"tcp", "tls"}}
+MCQuick1 == MCQuick0 \cup ZeroTimeouts(MCQuick0)
+MCQuick == MCQuick1 \cup OwnConn(MCQuick1)
 MCThorough0 == MCCases({0, 1, 3, 6}, {1, 3}, {0, 3, 7})
-MCThorough == MCThorough0 \cup ZeroTimeouts(MCThorough0)
+MCThorough1 == MCThorough0 \cup ZeroTimeouts(MCThorough0)
+MCThorough == MCThorough1 \cup OwnConn(MCThorough1)
 MCLive0 == MCCases({0, 2}, {1}, {0, 3})
-MCLive == MCLive0 \cup ZeroTimeouts(MCLive0)
+MCLive1 == MCLive0 \cup ZeroTimeouts(MCLive0)
+MCLive == MCLive1 \cup OwnConn(MCLive1)
 \* a frame longer than 255 octets: both length octets matter (no chunk enumeration here:
 \* the state space is one path per chunking, so keep it to the generator)
 =============================================================================
